@@ -103,7 +103,7 @@ class C09(Check):
     floor_nontrivial = 20
     required_counters = ("creations_run", "faults_raised", "controls_returned_exact", "reopen_probes")
     shards = (14, 16)
-    budget = (120, 900)
+    budget = (300, 900)
     exhaustive = True
 
     def cases(self, tier, seed):
